@@ -4,7 +4,7 @@
 # Usage: tools/rewritecheck.sh <verif dir to run from> <outfile> [names...]
 V=${1:-/verif}; OUT=${2:-/tmp/rewrites.txt}; shift 2
 NAMES=${*:-$(cd /verif/selftest/rewrites && ls *.diff | sed 's/\.diff//')}
-WT=/tmp/rwcheck-wt
+WT=${RW_WT:-/tmp/rwcheck-wt}
 git -C /repo worktree remove --force $WT 2>/dev/null
 git -C /repo worktree add -q --detach $WT HEAD || exit 2
 : > $OUT
